@@ -152,6 +152,21 @@ func ruleCampaignShape(c *Ctx) {
 		}
 	}
 	c.Check(stored, rule, "lease.Close", "resets expireTime so that Check() is false immediately after resign", P.pos(cl.Pos()), "")
+	// …and does so before the lease is revoked in etcd: once the revoke is applied a
+	// successor can win the campaign, so the local lease must already read expired.
+	isRevoke := func(ins ssa.Instruction) bool {
+		ci, ok := ins.(ssa.CallInstruction)
+		return ok && ci.Common().IsInvoke() && (ci.Common().Method.Name() == "Revoke" || ci.Common().Method.Name() == "Close")
+	}
+	expired := &calledEv{name: "expireTime reset", match: func(ins ssa.Instruction) bool {
+		ci, ok := ins.(*ssa.Call)
+		if !ok {
+			return false
+		}
+		f := ci.Call.StaticCallee()
+		return f != nil && f.Name() == "Store" && len(ci.Call.Args) > 0 && fieldOfAddr(ci.Call.Args[0]) == expField
+	}}
+	c.need(rule, cl, "Revoke/Close of the etcd lease", isRevoke, []Ev{expired}, all, "the local expiry is reset before the lease is revoked (no window in which a resigned holder still passes Check())")
 }
 
 // pdServerHandlers: the methods of *server.Server that implement pdpb.PDServer.
